@@ -227,8 +227,11 @@ class IfGen:
         text = "%s ? %s : %s" % (c.emb(4, self.r), a.emb(4, self.r), b.emb(3, self.r))
         return V(text, v, uns, 3, tags, c.ops | a.ops | b.ops | {("?:", "u" if uns else "s")})
 
-    def dead(self):
-        z = self.r.choice(("0", "(1 - 1)", "0u"))
+    def dead(self, typed=False):
+        """A never-evaluated division by zero.  As an arm of ?: its *type* still matters; gcc gives a
+        skipped division by zero the type of its left operand (cpplib returns lhs), the standard the
+        common type: only all-signed operands are used there, where both agree."""
+        z = self.r.choice(("0", "(1 - 1)") if typed else ("0", "(1 - 1)", "0u"))
         return V("%s %s %s" % (self.r.choice(("1", "7", "-3")), self.r.choice("/%"), z), 0, z == "0u", 13, (),
                  [("unevaluated-div0", "s")])
 
@@ -269,7 +272,7 @@ class IfGen:
             else:
                 cnd = self.tree(depth - 1)
                 if r.random() < 0.25:
-                    live, dead = self.tree(depth - 1), self.dead()
+                    live, dead = self.tree(depth - 1), self.dead(typed=True)
                     n = self.ternary(cnd, live, dead) if cnd.val else self.ternary(cnd, dead, live)
                 else:
                     n = self.ternary(cnd, self.tree(depth - 1), self.tree(depth - 1))
